@@ -155,7 +155,7 @@ def _dominated_by(cfg, node, facts):
 
 
 def removal_shape(ctx, rule='A5r'):
-    fn = ctx.fn(f'{INCOMP}:get_mod_nodes_remove_incompatibilities')
+    fn = inlined_view(ctx.prog, ctx.fn(f'{INCOMP}:get_mod_nodes_remove_incompatibilities'))
     cfg = build_cfg(fn)
     conf = [s_ for s_ in walk_fn(fn) if isinstance(s_, ast.Assign) and isinstance(s_.value, ast.Call) and
             call_name(s_.value) == 'traverse_until_choice_nodes' and isinstance(s_.targets[0], ast.Tuple)]
@@ -180,6 +180,16 @@ def removal_shape(ctx, rule='A5r'):
             conflict_sets.add(norm(a.ast.value.func.value))
     ctx.ob(rule, fkey(fn, rule, 'both-confirmed-is-conflict'), ok, fn.where,
            'an incompatibility edge whose two ends are both confirmed is recorded as a conflict', '')
+    # names the conflict set is handed on to (`a, b = x, y` / `a = x`: results of a spliced-in helper)
+    for _ in range(2):
+        for a_ in walk_fn(fn):
+            if isinstance(a_, ast.Assign) and len(a_.targets) == 1:
+                t_, v_ = a_.targets[0], a_.value
+                pairs = list(zip(t_.elts, v_.elts)) if isinstance(t_, ast.Tuple) and isinstance(v_, ast.Tuple) and \
+                    len(t_.elts) == len(v_.elts) else [(t_, v_)]
+                for tt, vv in pairs:
+                    if isinstance(tt, ast.Name) and isinstance(vv, ast.Name) and vv.id in conflict_sets:
+                        conflict_sets.add(tt.id)
     ok = False
     for r in raises:
         for p, lab in r.pred:
@@ -281,7 +291,7 @@ def confirmed_never_removed(ctx, rule='A6c'):
     the IncompatibilityError whose handlers remove it from the graph) never contains a confirmed node: where nodes
     that may be confirmed enter the set (the nodes *deriving* an incompatible target), every way out either knows
     that none of them is confirmed or subtracts the confirmed set first."""
-    fn = ctx.fn(f'{INCOMP}:get_mod_nodes_remove_incompatibilities')
+    fn = inlined_view(ctx.prog, ctx.fn(f'{INCOMP}:get_mod_nodes_remove_incompatibilities'))
     cfg = build_cfg(fn)
     conf = [s for s in walk_fn(fn) if isinstance(s, ast.Assign) and isinstance(s.value, ast.Call) and
             call_name(s.value) == 'traverse_until_choice_nodes']
